@@ -85,7 +85,12 @@ class Version:
 
     def __attrs_post_init__(self):
         normalized_string = self.normalize(self.string)
-        if not self.is_valid(normalized_string):
+        try:
+            is_valid = self.is_valid(normalized_string)
+        except ValueError:
+            # such as int() on a non-ASCII digit or on too many digits
+            is_valid = False
+        if not is_valid:
             raise InvalidVersion(f"{self.string!r} is not a valid {self.__class__!r}")
 
         # Set the normalized string as default value
